@@ -1,4 +1,76 @@
-(* Props/C03.v — placeholder while the proofs are being written *)
-From SA Require Import Model.Threshold.
-Example C03_placeholder : reverse_method Lower = Higher.
-Proof. reflexivity. Qed.
+(* Props/C03.v — property C03: extreme operating points are honoured exactly. Statements only.
+   Model = the repaired tree (fix commits 9ba2891, 33d4440 in /repo); on the original tree the
+   tie lemma tie_inv_incr fails and the check replays Scores([1.5],[1.0],equal_class="neg").threshold_at_tpr(0). *)
+From SA Require Import Model.Threshold Proofs.ExtremeFacts.
+Open Scope Q_scope.
+
+(* For all six metrics, all four configurations, all three methods, any easy counts >= 0 and any
+   sorted score lists (any size >= 1 of the relevant class, ties allowed): a target r <= 0 gives a
+   threshold at which the metric EQUALS its value at the end of the scale where it is lowest
+   (-inf or +inf, according to metric and score direction), a target r >= 1 the value where it is
+   highest.  succ/pred are np.nextafter towards +inf/-inf; only x < succ x and pred x < x are used. *)
+Theorem C03_extremes :
+  forall (succ pred : Q -> Q), (forall x, x < succ x) -> (forall x, pred x < x) ->
+  forall (mt : metric6) (s : scores) (r : Q) (m : method) (T : Q),
+  wf s -> (0 <= easy_pos s)%Z -> (0 <= easy_neg s)%Z ->
+  threshold_at succ pred mt s r m = Ret T ->
+  (r <= 0 -> metric_at mt s (Fin T) = metric_at mt s (low_end mt s)) /\
+  (1 <= r -> metric_at mt s (Fin T) = metric_at mt s (high_end mt s)).
+Proof. exact extremes_all. Qed.
+Print Assumptions C03_extremes.
+
+(* a threshold is returned exactly when the relevant class is non-empty (otherwise ValueError) *)
+Theorem C03_defined :
+  forall (succ pred : Q -> Q) (mt : metric6) (s : scores) (r : Q) (m : method),
+  (exists T, threshold_at succ pred mt s r m = Ret T) <->
+  match mt with MTpr | MFnr => (len (pos s) <> 0)%Z | MTnr | MFpr => (len (neg s) <> 0)%Z
+           | MTopr | MTonr => (nb_hard_samples s <> 0)%Z end.
+Proof. exact threshold_at_defined. Qed.
+Print Assumptions C03_defined.
+
+(* what the ends are: at reject_all nothing scored is accepted, at accept_all everything is *)
+Theorem C03_ends : forall s,
+  cm s (reject_all s) = mkCmz (easy_pos s) (len (pos s)) 0 (len (neg s) + easy_neg s) /\
+  cm s (accept_all s) = mkCmz (len (pos s) + easy_pos s) 0 (len (neg s)) (easy_neg s).
+Proof. intro s. split; [apply cm_reject_all|apply cm_accept_all]. Qed.
+Print Assumptions C03_ends.
+
+(* the examples of the property text, on the confusion matrix itself *)
+Theorem C03_fpr_zero_lets_no_negative_through :
+  forall (succ pred : Q -> Q), (forall x, x < succ x) -> (forall x, pred x < x) ->
+  forall s r m T, sorted (neg s) -> (0 <= easy_neg s)%Z -> threshold_at_fpr succ pred s r m = Ret T ->
+  r <= 0 -> cfp (cm s (Fin T)) = 0%Z.
+Proof.
+  intros succ pred Hs Hp s r m T Hn He HT Hr.
+  destruct (extremes_fpr succ pred Hs Hp s r m T Hn He HT) as [A _]. specialize (A Hr).
+  unfold neg_row in A. rewrite cm_reject_all in A. cbn in A. congruence.
+Qed.
+Print Assumptions C03_fpr_zero_lets_no_negative_through.
+
+Theorem C03_tpr_one_accepts_every_positive :
+  forall (succ pred : Q -> Q), (forall x, x < succ x) -> (forall x, pred x < x) ->
+  forall s r m T, sorted (pos s) -> (0 <= easy_pos s)%Z -> threshold_at_tpr succ pred s r m = Ret T ->
+  1 <= r -> cfn (cm s (Fin T)) = 0%Z.
+Proof.
+  intros succ pred Hs Hp s r m T Hn He HT Hr.
+  destruct (extremes_tpr succ pred Hs Hp s r m T Hn He HT) as [_ B]. specialize (B Hr).
+  unfold pos_row in B. rewrite cm_accept_all in B. cbn in B. congruence.
+Qed.
+Print Assumptions C03_tpr_one_accepts_every_positive.
+
+Theorem C03_tnr_one_rejects_every_negative :
+  forall (succ pred : Q -> Q), (forall x, x < succ x) -> (forall x, pred x < x) ->
+  forall s r m T, sorted (neg s) -> (0 <= easy_neg s)%Z -> threshold_at_tnr succ pred s r m = Ret T ->
+  1 <= r -> cfp (cm s (Fin T)) = 0%Z.
+Proof.
+  intros succ pred Hs Hp s r m T Hn He HT Hr.
+  destruct (extremes_tnr succ pred Hs Hp s r m T Hn He HT) as [_ B]. specialize (B Hr).
+  unfold neg_row in B. rewrite cm_reject_all in B. cbn in B. congruence.
+Qed.
+Print Assumptions C03_tnr_one_rejects_every_negative.
+
+(* non-vacuity: the single-score, right-continuous case that failed before the repair *)
+Example C03_example :
+  threshold_at succ64 pred64 MTpr (mk_scores [3#2] [1#1] 0 0 Pos Neg false) 0 Linear = Ret (succ64 (3#2)) /\
+  s_tpr (mk_scores [3#2] [1#1] 0 0 Pos Neg false) (Fin (succ64 (3#2))) = Some (0 / (0 + 1)).
+Proof. split; vm_compute; reflexivity. Qed.
